@@ -8,7 +8,17 @@ package bfe_server
 // of a redis server.  Get/Put are the unmodified production methods.
 
 import (
+	"crypto/x509"
+	"net"
+)
+
+import (
 	"github.com/gomodule/redigo/redis"
+)
+
+import (
+	"github.com/bfenetworks/bfe/bfe_config/bfe_tls_conf/tls_rule_conf"
+	"github.com/bfenetworks/bfe/bfe_tls"
 )
 
 // VerifC44NewSessionCache builds a ServerSessionCache with the given key prefix and expiry (seconds) whose pool
@@ -21,4 +31,17 @@ func VerifC44NewSessionCache(dial func() (redis.Conn, error), keyPrefix string, 
 	c.pool = &redis.Pool{MaxIdle: c.MaxIdle, Dial: dial}
 	c.state = new(ProxyState)
 	return c
+}
+
+// VerifC44TLSListener returns the bfe_tls listener inside an HttpsListener (what BfeServer serves HTTPS from), so that
+// the harness can Accept connections from it while UpdateSessionTicketKey — the production key reload — replaces its
+// configuration.
+func VerifC44TLSListener(l *HttpsListener) net.Listener { return l.tlsListener }
+
+// VerifC44RuleMap loads a rule configuration into a fresh TLSServerRuleMap (through its own Update): the ServerRule that
+// bfe_server installs into the TLS configuration.
+func VerifC44RuleMap(conf tls_rule_conf.BfeTlsRuleConf, caMap map[string]*x509.CertPool) *TLSServerRuleMap {
+	m := NewTLSServerRuleMap(new(ProxyState))
+	m.Update(conf, caMap, map[string]*bfe_tls.CRLPool{})
+	return m
 }
